@@ -167,3 +167,15 @@ contract(F + "ItemGrader.check", props=["C08", "C01", "C11"],
                 "forall(range(0, K), lambda j: results[pre(len(results)) + j]['grade_decimal'] == ufn('GRADE', answer, answer['expect'][j]))",
             ]),
     })
+
+
+# ---------------------------------------------------------------------------------------------- standardize_cfn_return (C01)
+contract(F + "ItemGrader.standardize_cfn_return", props=["C01", "C16"],
+    requires=["same(value, True) or same(value, False) or is_str(value) or (is_dict(value) and allocated(value) and has_keys(value, 'grade_decimal') "
+              "  and is_number(value['grade_decimal']) and 0 <= value['grade_decimal'] and value['grade_decimal'] <= 1 and implies('msg' in value, is_str(value['msg'])))",
+              "implies(is_str(value), str_lower(value) == 'partial')"],
+    ensures=["fresh(result) and wf_short(result)",
+             "implies(same(value, True), result['grade_decimal'] == 1)", "implies(same(value, False), result['grade_decimal'] == 0)",
+             "implies(is_str(value), result['grade_decimal'] == 0.5)",
+             "implies(is_dict(value), result['grade_decimal'] == value['grade_decimal'] and result['msg'] == (value['msg'] if 'msg' in value else ''))"],
+    modifies=[])
